@@ -422,7 +422,13 @@ PROPS["C09"] = {
             "HEAD, HTTP/1.0, 100-continue, 4 malformed) x 15 flag sets (abort, panic under recovery, error, hijack, streaming, no normalising, small "
             "retention) x random handler programs over every exported method of the context and its request/response objects; then a fixed probe on "
             "the same connection and on another connection of the same engine, compared with a new engine. Public pools (pool): Acquire/Release of "
-            "Request/Response/URI/Cookie and Args.Reset. Concurrency (probec): 8x12 (quick) / 12 runs of 16x60 (thorough) connections in parallel.",
+            "Request/Response/URI/Cookie and Args.Reset. Concurrency (probec): 8x12 (quick) / 12 runs of 16x60 (thorough) connections in parallel. "
+            "Ownership (own): on one real engine 1-4 scripted connections of 1-4 requests (GET, small/large Content-Length, chunked, broken chunked, "
+            "100-continue, multipart, malformed, truncated) x body use (none/partial/full) x ending (keep-alive, Connection: close, hijack with and "
+            "without KeepHijackedConns / user Close, Exile, unrecovered panic, write failure, IdleTimeout 0, skipRest error) with GOMAXPROCS(1) and the "
+            "GC off, identities of context / body stream / hijack conn reported by the handlers, then k=2-4 streamed uploads in flight together "
+            "(barrier) that must each read their own body, then ctxPool, bodyStreamPool and hijackConnPool are drained completely; the Lean state "
+            "machine is replayed on the reported Get choices and must end with the same pool contents.",
     "exhaustive_note": "every single-step program over the complete reflected alphabet of exported methods (all receiver objects) is run for every reset "
                        "method, for the end-to-end probe and for each pooled type; all 11 x 15 request-variant/flag combinations with the empty program; the rest is sampled",
     "level_text": "The reset bodies of all nine pooled types are translated from the Go source into Lean on every run (statement by statement; capacity "
@@ -433,12 +439,19 @@ PROPS["C09"] = {
                   "- for these the full statement is refuted on concrete witnesses (reset_fresh_fails_at, checked against "
                   "the real code) and proved under the excluding hypotheses. every_field_accounted: each Go field is written by the reset closure or "
                   "allow-listed, decided over the generated tables. The generated functions are run by the driver on states dumped from the real objects "
-                  "and must reproduce the real post-state field by field; end-to-end probes through the real server compare every exported getter.",
+                  "and must reproduce the real post-state field by field; end-to-end probes through the real server compare every exported getter. "
+                  "Ownership (Model/PoolOwn.lean): pools are multisets of identities with an unconditional Put; one connection's Serve is a state "
+                  "machine over its acquire/release sites (which are regenerated from the source with their guards: release_sites_match_gen); for "
+                  "every event sequence of any length and any interleaving of connections: no_double_put, no_use_after_put, distinct_owners, "
+                  "every_acquired_released_or_owned (with the list of deliberate non-releases: exiled context, body stream on write failure / "
+                  "unrecovered panic, kept hijack conn).",
     "level_note": "Trusted: Lean kernel; the go/ast translator gen/c09.go (its output is additionally compared with the real objects on every state-level "
                   "case); harness/driver. Abstractions: slices are lists (nil vs empty and retained capacity are not modelled - stale capacity is "
                   "covered by the differential runs only); interface/func/map/chan values are opaque tokens (0 = nil); closing of channels/streams and "
                   "traceInfo.Reset are effects outside the state. sync.Pool is modelled as 'Get returns some Put object or a new one'; goroutine "
-                  "migration is sampled (probec), to be run under -race manually. Known finding: exiled-survives-reset.",
+                  "migration is sampled (probec), to be run under -race manually. The ownership state machine covers RequestContext, bodyStream and "
+                  "hijackConn; body byte buffers, eventStack, multipart form and traceInfo are only in the generated site list. Known findings: "
+                  "exiled-survives-reset, hijackconn-double-close.",
     "assumptions": ["handlers do not call the configuration setters SetConn/SetBinder/SetValidator/SetClientIPFunc/SetFormValueFunc/SetTraceInfo/"
                     "SetEnableTrace/Request.SetIsTLS/SetMaxKeepBodySize (these survive recycling by design) and do not lower the chain index (SetIndex)",
                     "RequestHeader.GetBufValue (accessor of the scratch buffer) is not an observation",
